@@ -31,7 +31,10 @@ def resolve(dotted):
 class Contract(object):
     def __init__(self, target, cls):
         self.target = target
-        d = cls.__dict__
+        d = {}
+        for k in reversed(cls.__mro__):
+            if k is not object:
+                d.update(k.__dict__)
         self.module, self.func = resolve(target)
         self.func = inspect.unwrap(self.func) if d.get('unwrap') else self.func
         self.enums = dict(d.get('enums', {}))
